@@ -512,6 +512,13 @@ func c08Oracle(
 
 	n := len(obs.Wire)
 
+	// Same clauses, separate structural signature when the handler's response
+	// ends with a TSIG record (miekg's Truncate leaves such messages alone).
+	sfx := ""
+	if h.IsTsig() != nil {
+		sfx = ":tsig-response"
+	}
+
 	// Clause 1: size limit.
 	if t.Datagram {
 		adv := 0
@@ -524,21 +531,11 @@ func c08Oracle(
 		}
 		limit := max(512, min(adv, cfg))
 		if n > limit {
-			key := t.Name + "/size-exceeds-limit"
-			if h.IsTsig() != nil {
-				// Same clause, separate structural signature: the handler's
-				// response ends with a TSIG record.
-				key += ":tsig-response"
-			}
-			fs = append(fs, vrt.F(key,
+			fs = append(fs, vrt.F(t.Name+"/size-exceeds-limit"+sfx,
 				"%s: %d bytes on the wire, limit max(512, min(advertised %d, configured %d)) = %d", what, n, adv, cfg, limit)...)
 		}
 	} else if !t.Direct && n > dns.MaxMsgSize {
-		key := t.Name + "/size-exceeds-limit"
-		if h.IsTsig() != nil {
-			key += ":tsig-response"
-		}
-		fs = append(fs, vrt.F(key,
+		fs = append(fs, vrt.F(t.Name+"/size-exceeds-limit"+sfx,
 			"%s: %d bytes sent over a stream transport, limit 65535", what, n)...)
 	}
 
@@ -562,12 +559,12 @@ func c08Oracle(
 		c08Count(out.Extra) < c08Count(h.Extra)
 	if dropped {
 		if !out.Truncated {
-			fs = append(fs, vrt.F(t.Name+"/dropped-without-tc",
+			fs = append(fs, vrt.F(t.Name+"/dropped-without-tc"+sfx,
 				"%s: records dropped (an %d->%d ns %d->%d ex %d->%d) but TC is not set (rcode %s)", what,
 				c08Count(h.Answer), c08Count(out.Answer), c08Count(h.Ns), c08Count(out.Ns), c08Count(h.Extra), c08Count(out.Extra), dns.RcodeToString[out.Rcode])...)
 		}
 		if len(out.Answer) != 0 {
-			fs = append(fs, vrt.F(t.Name+"/dropped-answer-not-empty",
+			fs = append(fs, vrt.F(t.Name+"/dropped-answer-not-empty"+sfx,
 				"%s: records dropped (an %d->%d ns %d->%d ex %d->%d) but %d answers are still sent", what,
 				c08Count(h.Answer), c08Count(out.Answer), c08Count(h.Ns), c08Count(out.Ns), c08Count(h.Extra), c08Count(out.Extra), len(out.Answer))...)
 		}
